@@ -897,6 +897,20 @@ class _Fn:
             if f.id in ("any", "all") and len(node.args) == 1 and isinstance(node.args[0], (ast.GeneratorExp, ast.ListComp)):
                 g = node.args[0]
                 src, v, scope = self._generator(g, eff)
+                # (added for harness/pygen_pxrunner.py) the element IS one Boolean atom that may raise
+                # (`any(MAPPING[t["status"]] for t in l if c)`): `List.anyM` / `allM` evaluate it element by element and
+                # stop at the first decisive one, like Python's `any` / `all`, so the exception is raised exactly when
+                # Python raises it; only as a statement-level value (not behind and/or, not inside a lambda)
+                self.scopes.append(scope)
+                try:
+                    hit = self.atom(g.elt)
+                finally:
+                    self.scopes.pop()
+                if hit is not None and hit[2] == "raises":
+                    if hit[1] != "bool" or not eff or self.lam or not self.spec.monadic:
+                        raise Unsupported(f"{where}: `{ast.unparse(node)[:70]}`: an element that may raise is accepted "
+                                          "only as a Boolean atom, in a monadic function, where Python always evaluates it")
+                    return f"(← ({src}.{f.id}M (fun {v} => {hit[0]})))", "bool"
                 body = self._under(scope, lambda: self.cond(g.elt, False))
                 return f"({src}.{f.id} (fun {v} => {body}))", "bool"
         if isinstance(f, ast.Attribute):
